@@ -7,9 +7,11 @@ import (
 	"go/types"
 	"math/big"
 	"regexp"
+	"sort"
 	"strings"
 
 	"golang.org/x/tools/go/packages"
+	"golang.org/x/tools/go/ssa"
 	"golang.org/x/tools/go/types/typeutil"
 )
 
@@ -993,4 +995,93 @@ func isBlockCounter(p *packages.Package, fd *ast.FuncDecl, obj types.Object, bs 
 		return true
 	})
 	return found
+}
+
+// ---------------------------------------------------------------------------------------------------------------
+// W-ROWALIAS: GetRow never hands out the source's own storage
+// ---------------------------------------------------------------------------------------------------------------
+
+func checkRowAlias(c *Ctx, r *Report) {
+	r.Rule("W-ROWALIAS", "every LuminanceSource.GetRow of the library returns, on every path, the caller's buffer, a slice made in the call, nil, or what another GetRow returned - never a slice of the source's stored pixels: callers (InvertedLuminanceSource.GetRow inverts in place, binarisers reuse the row as the next buffer) write into what they get back, which would change the source and with it every later row and matrix", 3)
+	n := 0
+	var fs []*ssa.Function
+	for f := range c.allFuncs {
+		if f.Name() != "GetRow" || f.Blocks == nil || f.Synthetic != "" || !isRepoPkgFn(f) || f.Signature.Recv() == nil {
+			continue
+		}
+		if strings.HasSuffix(f.Pkg.Pkg.Path(), "/testutil") {
+			continue
+		}
+		res := f.Signature.Results()
+		if res.Len() != 2 {
+			continue
+		}
+		if sl, ok := res.At(0).Type().Underlying().(*types.Slice); !ok || !types.Identical(sl.Elem(), types.Typ[types.Byte]) {
+			continue
+		}
+		fs = append(fs, f)
+	}
+	sort.Slice(fs, func(i, j int) bool { return fs[i].String() < fs[j].String() })
+	for _, f := range fs {
+		n++
+		key := shortFn(f)
+		r.Analysed(key)
+		bad := ""
+		var trace func(v ssa.Value, depth int) string
+		trace = func(v ssa.Value, depth int) string {
+			if depth > 12 {
+				return "value flow too deep to follow"
+			}
+			switch x := v.(type) {
+			case *ssa.Parameter:
+				if _, ok := x.Type().Underlying().(*types.Slice); ok {
+					return ""
+				}
+			case *ssa.MakeSlice:
+				return ""
+			case *ssa.Const:
+				if x.IsNil() {
+					return ""
+				}
+			case *ssa.Slice:
+				return trace(x.X, depth+1)
+			case *ssa.Phi:
+				for _, e := range x.Edges {
+					if w := trace(e, depth+1); w != "" {
+						return w
+					}
+				}
+				return ""
+			case *ssa.Extract:
+				if call, ok := x.Tuple.(*ssa.Call); ok && x.Index == 0 && call.Call.Value != nil {
+					if call.Call.IsInvoke() && call.Call.Method.Name() == "GetRow" {
+						return ""
+					}
+					if g := call.Call.StaticCallee(); g != nil && g.Name() == "GetRow" {
+						return ""
+					}
+				}
+			case *ssa.Alloc:
+				return "" // a local array
+			case *ssa.UnOp:
+				if fa, ok := x.X.(*ssa.FieldAddr); ok && x.Op == token.MUL {
+					return "the stored field " + fieldKey(fa.X.Type(), fa.Field)
+				}
+			}
+			return fmt.Sprintf("a value the rule cannot classify (%T %s)", v, v.Name())
+		}
+		for _, ret := range returnsOf(f) {
+			if len(ret.Results) != 2 {
+				continue
+			}
+			if w := trace(unspill(ret.Results[0], ret), 0); w != "" {
+				bad = fmt.Sprintf("the return at %s hands out %s", c.pos(ret.Pos()), w)
+				break
+			}
+		}
+		r.Check(bad == "", "W-ROWALIAS", key, c.pos(f.Pos()), bad)
+	}
+	if n == 0 {
+		r.AnchorLost("W-ROWALIAS", "LuminanceSource.GetRow", "no implementation found")
+	}
 }
